@@ -3,6 +3,7 @@ import DaskModel.Lemmas.BlockScan
 import DaskModel.Lemmas.BlellochAll
 import DaskModel.Lemmas.TopK
 import DaskModel.Lemmas.GridReduce
+import DaskModel.Lemmas.TreeDepth
 import Mathlib.Tactic.SplitIfs
 /-!
 # C22 — array reductions and scans equal NumPy for every chunking and `split_every`
@@ -20,6 +21,9 @@ data; sequential and Blelloch scans return the global scan.  What is proved here
   `min_nd_eq_numpy` / `max_nd_eq_numpy` via `gridReduce_mapGrid` (the grid tree commutes with a map of the partials
   along which combine/aggregate are natural: `Option Int` with `omerge` ↪ dask's 0/1-element partial arrays);
 * K2: sequential and Blelloch scans (`cumsum/cumprod_*_eq_numpy`, `blelloch_schedule_ok` for every `n`).
+* the depth loop of `_tree_reduce` itself: `axesOk_treeDepth` (the depth it computes satisfies `n_i ≤ k_i ^ depth` on every
+  reduced axis), `treeDepth_least`, `sum_nd_dask_depth` / `nd_tree_dask_depth` / `tree_dask_depth` (the theorems with dask's
+  own depth — or any larger one — and no side condition left), `treeDepthLast_refuted` (depth from the last axis only);
 Not proved (validated by the correspondence check): float round-off, var/std/moment, nan-variants,
 arg-reductions over several axes, median/quantile glue.
 -/
@@ -596,6 +600,127 @@ theorem nd_tree_eq_fold {β : Type} {op : β → β → β} {e : β} (hM : IsCom
 example : AxesOk 2 [2, 2] [3, 2] := by
   unfold AxesOk; refine List.Forall₂.cons ⟨by decide, by decide, by decide⟩ (List.Forall₂.cons ⟨by decide, by decide, by decide⟩ List.Forall₂.nil)
 
+
+/-! ## the depth `_tree_reduce` computes (the hypothesis `n_i ≤ k_i ^ depth` discharged) -/
+
+/-- a larger depth is harmless (the float `ceil(log(n, k))` may overshoot by one at exact powers) -/
+theorem axesOk_mono {d d' : Nat} {ks nb : List Nat} (h : AxesOk d ks nb) (hd : d ≤ d') : AxesOk d' ks nb := by
+  induction h with
+  | nil => exact List.Forall₂.nil
+  | @cons k n ks nb hkn _ ih =>
+    refine List.Forall₂.cons ⟨hkn.1, hkn.2.1, Nat.le_trans hkn.2.2 (Nat.pow_le_pow_right ?_ hd)⟩ ih
+    have := hkn.1; omega
+
+theorem axesOk_of_depthLoop : ∀ (ks nb : List Nat) (d0 D : Nat), ks.length = nb.length → (∀ k ∈ ks, 2 ≤ k) →
+    (∀ n ∈ nb, 1 ≤ n) → depthLoop (ks.map some) nb d0 ≤ D → AxesOk D ks nb
+  | [], [], _, _, _, _, _, _ => List.Forall₂.nil
+  | [], _ :: _, _, _, h, _, _, _ => by simp at h
+  | _ :: _, [], _, _, h, _, _, _ => by simp at h
+  | k :: ks, n :: nb, d0, D, hlen, hk, hn, hD => by
+    have hk2 : 2 ≤ k := hk k (by simp)
+    simp only [List.map_cons, depthLoop] at hD
+    refine List.Forall₂.cons ⟨by omega, hn n (by simp), ?_⟩
+      (axesOk_of_depthLoop ks nb _ D (by simpa using hlen) (fun k' hk' => hk k' (by simp [hk']))
+        (fun n' hn' => hn n' (by simp [hn'])) hD)
+    have h1 : ceilLog k n ≤ depthStep d0 (some k) n := by
+      have hk1 : k ≠ 1 := by omega
+      simp only [depthStep, if_neg hk1]; exact Nat.le_max_right _ _
+    have h2 := le_depthLoop (ks.map some) nb (depthStep d0 (some k) n)
+    exact Nat.le_trans (le_pow_ceilLog hk2 n) (Nat.pow_le_pow_right (by omega) (by omega))
+
+/-- **the depth loop of `_tree_reduce` satisfies the hypothesis of the tree theorems on every reduced axis**
+    (group sizes ≥ 2 — dask's normalisation `max(int(k ** (1/naxes)), 2)` / the documented `int >= 2` —, at least one
+    block per axis), and so does every larger depth. -/
+theorem axesOk_treeDepth (ks nb : List Nat) (hlen : ks.length = nb.length) (hk : ∀ k ∈ ks, 2 ≤ k)
+    (hn : ∀ n ∈ nb, 1 ≤ n) : AxesOk (treeDepth (ks.map some) nb) ks nb :=
+  axesOk_of_depthLoop ks nb 1 _ hlen hk hn (Nat.le_refl _)
+
+/-- **sum over several axes with the depth dask itself computes** — no side condition on the depth left -/
+theorem sum_nd_dask_depth (ks nb : List Nat) (blocks : List (List Int)) (hlen : ks.length = nb.length)
+    (hk : ∀ k ∈ ks, 2 ≤ k) (hn : ∀ n ∈ nb, 1 ≤ n)
+    (hl : blocks.length = (cartesian (nb.map List.range)).length) (extra : Nat) :
+    redSum.run nb (ks.map some) false (treeDepth (ks.map some) nb + extra) blocks = some [([], isum blocks.flatten)] := by
+  obtain ⟨d, hd⟩ : ∃ d, treeDepth (ks.map some) nb + extra = d + 1 :=
+    ⟨treeDepth (ks.map some) nb + extra - 1, by have := one_le_treeDepth (ks.map some) nb; omega⟩
+  rw [hd]
+  exact sum_nd_eq_numpy d ks nb blocks (hd ▸ axesOk_mono (axesOk_treeDepth ks nb hlen hk hn) (Nat.le_add_right _ _)) hl
+
+/-- the same for any commutative-monoid reduction (prod, any, all, mean pairs, min/max through `omerge`) -/
+theorem nd_tree_dask_depth {β : Type} {op : β → β → β} {e : β} (hM : IsCommMonoid op e) (ks nb : List Nat)
+    (parts : List β) (hlen : ks.length = nb.length) (hk : ∀ k ∈ ks, 2 ≤ k) (hn : ∀ n ∈ nb, 1 ≤ n)
+    (hl : parts.length = (cartesian (nb.map List.range)).length) (extra : Nat) :
+    gridReduce (fun xs => xs.foldr op e) (fun xs => xs.foldr op e) nb (ks.map some) false
+        (treeDepth (ks.map some) nb + extra) (mkGrid nb parts) = some [([], parts.foldr op e)] := by
+  obtain ⟨d, hd⟩ : ∃ d, treeDepth (ks.map some) nb + extra = d + 1 :=
+    ⟨treeDepth (ks.map some) nb + extra - 1, by have := one_le_treeDepth (ks.map some) nb; omega⟩
+  rw [hd]
+  exact gridReduce_eq_fold hM d ks nb parts (hd ▸ axesOk_mono (axesOk_treeDepth ks nb hlen hk hn) (Nat.le_add_right _ _)) hl
+
+/-- 1-d: `treeReduce` with dask's own depth -/
+theorem tree_dask_depth {β γ : Type} (combine : List β → β) (aggregate : List β → γ)
+    (Hc : Hom combine combine) (Ha : Hom combine aggregate) (k : Nat) (hk : 2 ≤ k) (xs : List β) (hne : xs ≠ [])
+    (extra : Nat) :
+    treeReduce combine aggregate k (treeDepth [some k] [xs.length] + extra) xs = [aggregate xs] := by
+  apply treeReduce_eq_fold combine aggregate Hc Ha k _ (by omega) xs hne
+  have h := axesOk_mono (axesOk_treeDepth [k] [xs.length] rfl (by simpa using hk)
+    (by simp; cases xs with | nil => exact absurd rfl hne | cons => simp)) (Nat.le_add_right _ extra)
+  cases h with
+  | cons hkn _ => exact hkn.2.2
+
+/-- … and it is the least depth that works: no level is wasted (exact arithmetic) -/
+theorem treeDepth_least : ∀ (ks nb : List Nat) (d0 D : Nat), d0 ≤ D → AxesOk D ks nb →
+    depthLoop (ks.map some) nb d0 ≤ D
+  | [], _, _, _, h, _ => by simpa [depthLoop] using h
+  | _ :: _, [], _, _, h, _ => by simpa [depthLoop] using h
+  | k :: ks, n :: nb, d0, D, h0, hok => by
+    cases hok with
+    | cons hkn hrest =>
+      simp only [List.map_cons, depthLoop]
+      apply treeDepth_least ks nb _ D _ hrest
+      show (match some k with | some k => if k = 1 then d0 else max d0 (ceilLog k n) | none => d0) ≤ D
+      simp only
+      split
+      · exact h0
+      · exact Nat.max_le.mpr ⟨h0, ceilLog_le hkn.2.2⟩
+
+/-! ### the depth decided by the last reduced axis only (independently seeded defect C30-1) is too small -/
+
+theorem pa4_6 : partitionAll 4 (List.range 6) = [[0, 1, 2, 3], [4, 5]] := by
+  simp [List.range, List.range.loop, partitionAll_cons, partitionAll_nil]
+theorem pa4_2 : partitionAll 4 (List.range 2) = [[0, 1]] := by
+  simp [List.range, List.range.loop, partitionAll_cons, partitionAll_nil]
+
+/-- a 6 × 2 grid of blocks with `split_every = 4` per axis: the true loop gives depth 2, the last-axis loop depth 1 -/
+theorem treeDepthLast_too_small :
+    treeDepth [some 4, some 4] [6, 2] = 2 ∧ treeDepthLast [some 4, some 4] [6, 2] = 1 ∧
+    ¬ AxesOk (treeDepthLast [some 4, some 4] [6, 2]) [4, 4] [6, 2] := by
+  refine ⟨by decide, by decide, ?_⟩
+  intro h
+  have e : treeDepthLast [some 4, some 4] [6, 2] = 1 := by decide
+  rw [e] at h
+  cases h with
+  | cons hkn _ => have := hkn.2.2; omega
+
+/-- … and the tree then ends with TWO aggregate tasks writing the same output key (the later one wins): the sum of
+    twelve blocks of `[1]` is reported as 4 -/
+theorem treeDepthLast_refuted :
+    redSum.run [6, 2] [some 4, some 4] false (treeDepthLast [some 4, some 4] [6, 2]) (List.replicate 12 [1])
+      = some [([], 8), ([], 4)] ∧
+    Grid.get? [(([] : List Nat), (8 : Int)), ([], 4)] [] = some 4 := by
+  have e : treeDepthLast [some 4, some 4] [6, 2] = 1 := by decide
+  rw [e]
+  constructor
+  · simp only [Red.run, gridReduce, roundPlan, List.zipWith, axisParts, Option.getD, pa4_6, pa4_2]
+    decide
+  · decide
+
+/-- non-vacuity of the depth theorems: the same grid with the real depth gives 12 -/
+example : redSum.run [6, 2] [some 4, some 4] false (treeDepth [some 4, some 4] [6, 2]) (List.replicate 12 [1])
+    = some [([], 12)] := by
+  have := sum_nd_dask_depth [4, 4] [6, 2] (List.replicate 12 [1]) rfl (by decide) (by decide) (by decide) 0
+  have e : isum (List.replicate 12 [(1 : Int)]).flatten = 12 := by decide
+  rw [e] at this
+  exact this
 
 /-! ## n-d mean / min / max: transport of the grid tree along a map of partials -/
 section transport
